@@ -101,6 +101,15 @@ func c06Shapes(thorough bool) []c06shape {
 		}},
 		c06shape{name: "[]interface{} (identity hook, unknown value 2)", codes: 3, body: root, hook: HookIdentity, unknown: two, mk: func(p []int) *Node { return NSlice(TAny, elems(p, one, two, NNilAny())...) }},
 	)
+	// a hook that transforms the scalar elements themselves: the value placeholder must see what a lookup of S.i sees
+	shapes = append(shapes,
+		c06shape{name: "[]int (scalar-swapping hook)", codes: 2, body: root, hook: HookSwap, mk: func(p []int) *Node { return NSlice(TInt, elems(p, one, two, nil)...) }},
+		c06shape{name: "[]interface{} (scalar-swapping hook)", codes: 3, body: root, hook: HookSwap, mk: func(p []int) *Node { return NSlice(TAny, elems(p, one, two, NNilAny())...) }},
+		c06shape{name: "map[string]int (scalar-swapping hook)", codes: 2, isMap: true, body: root, hook: HookSwap, mk: func(p []int) *Node { return mapOf(TInt, elems(p, one, two, nil)) }},
+		c06shape{name: "[N]MyInt (scalar-swapping hook)", codes: 2, body: root, hook: HookSwap, mk: func(p []int) *Node {
+			return NArray(Sc(KInt, true), elems(p, NInt(KInt, true, 1), NInt(KInt, true, 2), nil)...)
+		}},
+	)
 	shapes = append(shapes,
 		c06shape{name: "[]interface{} under a 3-part selector", codes: 3, body: root, sel: []string{"p", "q", "S"}, mk: func(p []int) *Node { return NSlice(TAny, elems(p, one, two, NNilAny())...) }},
 		c06shape{name: "[]interface{} under a 3-part selector, re-entrant hook", codes: 3, body: root, sel: []string{"p", "q", "S"}, hook: HookIdentity, reentrant: true, mk: func(p []int) *Node { return NSlice(TAny, elems(p, one, two, NNilAny())...) }},
